@@ -238,6 +238,15 @@ impl TryFrom<OpenFile> for Stdio {
         // fail (e.g. under descriptor exhaustion), so the conversion is fallible and the error is
         // surfaced to the caller rather than silently degrading the child's streams.
         match open_file {
+            // `Stdio::inherit()` means "the parent's descriptor with the same number as the
+            // child's slot", which is the wrong stream whenever one of the original standard
+            // streams sits on a different number (e.g. the original stdout on descriptor 2
+            // after `2>&1`); hand the child a duplicate of the stream itself.
+            #[cfg(unix)]
+            OpenFile::Stdin(_) | OpenFile::Stdout(_) | OpenFile::Stderr(_) => {
+                Ok(open_file.try_clone_to_owned()?.into())
+            }
+            #[cfg(not(unix))]
             OpenFile::Stdin(_) | OpenFile::Stdout(_) | OpenFile::Stderr(_) => Ok(Self::inherit()),
             OpenFile::File(f) => Ok(f.try_clone()?.into()),
             OpenFile::PipeReader(r) => Ok(r.try_clone()?.into()),
